@@ -7,23 +7,28 @@ From RtoscV Require Import Match.PatSpec Match.MatchModel Ports.NameModel Ports.
 Import ListNotations.
 Local Open Scope Z_scope.
 
-(* a string with every maximal digit run replaced by the single character '#' *)
-Fixpoint shape_aux (in_run : bool) (s : list Z) : list Z :=
-  match s with
-  | [] => []
-  | c :: t => if isdigit c then (if in_run then shape_aux true t else 35 :: shape_aux true t)
-              else c :: shape_aux false t
+(* the tokens of a name's path part: its literal characters, and one token for
+   every '#N' *)
+Inductive tok := TC (c : Z) | TH.
+
+Definition toks (l : list NameModel.seg) : list tok :=
+  flat_map (fun s => match s with NameModel.Lit t => map TC t | NameModel.Enum _ => [TH] end) l.
+
+Definition stoks (q : sport) : list tok := match q with SPort sg _ _ _ => toks sg end.
+
+(* two names CLASH when one could spell a beginning of what the other spells:
+   literal characters must agree, '#N' against '#M' goes on behind both, '#N'
+   against a literal digit counts as a clash (a#4b / a01b), and so does the end
+   of either name (x / xy: "a sibling's name is a prefix of another's") *)
+Fixpoint clashb (a b : list tok) : bool :=
+  match a, b with
+  | [], _ => true
+  | _, [] => true
+  | TC c :: a', TC d :: b' => (c =? d) && clashb a' b'
+  | TH :: a', TH :: b' => clashb a' b'
+  | TH :: _, TC d :: _ => isdigit d
+  | TC c :: _, TH :: _ => isdigit c
   end.
-Definition shape (s : list Z) : list Z := shape_aux false s.
-
-(* the key of a name: its path part with every '#N' and every digit run of its
-   literal text replaced by '#' (rep0: each '#N' as the digit 0, then shape) *)
-Definition rep0 (l : list NameModel.seg) : list Z :=
-  concat (map (fun s => match s with NameModel.Lit t => t | NameModel.Enum _ => [48] end) l).
-Definition key (l : list NameModel.seg) : list Z := shape (rep0 l).
-
-Definition skey (q : sport) : list Z := match q with SPort sg _ _ _ => key sg end.
-
 
 Definition litcharb (c : Z) : bool :=
   (0 <? c) && (c <? 127) && negb ((c =? 58) || (c =? 123) || (c =? 42) || (c =? 35)).
@@ -77,13 +82,13 @@ Fixpoint comps_okb (sg : list NameModel.seg) : bool :=
 Definition sub_okb (sg : list NameModel.seg) (a : list Z) : bool :=
   is_nil a && negb (is_nil sg) && comps_okb sg.
 
-Fixpoint keys_freeb (ks : list (list Z)) : bool :=
+Fixpoint keys_freeb (ks : list (list tok)) : bool :=
   match ks with
   | [] => true
-  | k :: r => forallb (fun k' => negb (NameModel.prefixb k k') && negb (NameModel.prefixb k' k)) r && keys_freeb r
+  | k :: r => forallb (fun k' => negb (clashb k k')) r && keys_freeb r
   end.
 
-Definition table_okb (l : list sport) : bool := keys_freeb (map skey l).
+Definition table_okb (l : list sport) : bool := keys_freeb (map stoks l).
 
 Fixpoint port_okb (p : sport) : bool :=
   match p with
@@ -94,7 +99,7 @@ Fixpoint port_okb (p : sport) : bool :=
   end.
 
 (* names_ok: every name of the documented shape (literal text may hold digits;
-   the text behind a '#N' does not begin with one), the keys of every table
-   pairwise not prefixes of one another *)
+   the text behind a '#N' does not begin with one), the names of every table
+   pairwise not clashing *)
 Definition names_ok (root : list sport) : bool := table_okb root && forallb port_okb root.
 
